@@ -133,7 +133,7 @@ fn pump(p: &mut Proc, ctl: Option<&mut Controller>, out: &mut RunOut, deadline: 
 /// True when every thread of the server process is sleeping in a system call (parked at a
 /// yield point = blocked reading the control socket; blocked on a lock = futex; idle main loop
 /// = epoll). A thread that is computing, or runnable but not scheduled, is in state R.
-fn server_quiet(pid: u32) -> bool {
+pub(crate) fn server_quiet(pid: u32) -> bool {
     let Ok(rd) = std::fs::read_dir(format!("/proc/{pid}/task")) else { return true };
     for e in rd.flatten() {
         let Ok(stat) = std::fs::read_to_string(e.path().join("stat")) else { continue };
